@@ -81,6 +81,16 @@ class World:
                 raise Mismatch("component-shape-unreadable/%s" % type(e).__name__, where)
             if shp != tuple(d.shape):
                 raise Mismatch("component-shape-differs-from-data", {"where": where, "component": str(c), "got": list(shp), "data": list(d.shape)})
+            if any(c is x for x in d.derived_components):
+                # a derived component reports the dataset's shape without computing anything: read it
+                try:
+                    got_shape = tuple(np.shape(d[c]))
+                except Exception as e:  # noqa
+                    if blame(e)[0] != "glue":
+                        raise
+                    raise Mismatch("derived-component-unreadable/%s" % type(e).__name__, {"where": where, "component": str(c)})
+                if got_shape != tuple(d.shape):
+                    raise Mismatch("derived-component-values-have-another-shape", {"where": where, "component": str(c), "got": list(got_shape)})
         pix = d.pixel_component_ids
         if len(pix) != d.ndim or [p.axis for p in pix] != list(range(d.ndim)):
             raise Mismatch("pixel-attributes-not-one-per-dimension", {"where": where, "n": len(pix), "ndim": d.ndim})
@@ -230,7 +240,10 @@ class World:
                     raise Mismatch("add_component-under-existing-id-changed-structure", where)
             elif how == "derived" and d.main_components:
                 src = d.main_components[op[2] % len(d.main_components)]
-                d.add_component(src * 2, "v%d" % self.counter)
+                other = d.main_components[(op[2] // 2) % len(d.main_components)]
+                # expressions of several shapes: the same attribute may sit on both sides, or on the right of a sub-expression
+                expr = [src * 2, other * 2 + src, src - src, (src + 1) * (other - src), 3 - src][self.counter % 5]
+                d.add_component(expr, "v%d" % self.counter)
                 cid = d.components[-1]
             else:
                 return
